@@ -370,7 +370,6 @@ let op_strender (args : str list) : str list =
   | [h] ->
       (match parse_fb_text (text_of_hex h) with
        | OParsed [] -> ["emptybody"]
-       | OParsed l when not (list_bodies_ok l) -> ["emptybody"]
        | OParsed l ->
            let toks = render_list l in
            [ "rendered";
